@@ -58,7 +58,54 @@ def cases(tier, seed):
                 if op == 'sqrt':
                     ka = [0, rng.randrange(1, 2 ** d)]
                 out.append(dict(kind='repeat', cfg=cfg, op=op, ka=ka, kb=kb, other=list(rng.choice(P)), hseed=rng.randrange(10 ** 6)))
+    # long histories: one pattern, then MANY other patterns on the same operator, then the first again
+    for cfg, op, n in ((dict(p=3), 'gp', 200), (dict(p=3), 'add', 200), (dict(p=3, r=1), 'reverse', 400), (dict(p=3), 'registered', 150),
+                       (dict(p=2, q=1), 'neg', 200)):
+        out.append(dict(kind='long-history', cfg=cfg, op=op, n=n if tier == 'quick' else 3 * n, hseed=rng.randrange(10 ** 6)))
     return out
+
+
+def _run_long(desc, V):
+    from kingdon.multivector import MultiVector
+    kapi.install_recorder()
+    alg = make_alg(desc['cfg'])
+    op = desc['op']
+    rng = random.Random(desc['hseed'])
+    d = alg.d
+    binary = op in BIN or op == 'registered'
+    if op == 'registered':
+        ns = {}
+        exec('def reg_long(x, y):\n    return x * y\n', ns)
+        target = alg.register(ns['reg_long'])
+
+    def call(tag, ka, kb):
+        a = MultiVector.fromkeysvalues(alg, tuple(ka), [V.var(f'{tag}a{i}') for i in range(len(ka))])
+        if not binary:
+            return ops.call_unary(op, a, 'method')
+        b = MultiVector.fromkeysvalues(alg, tuple(kb), [V.var(f'{tag}b{i}') for i in range(len(kb))])
+        return target(a, b) if op == 'registered' else ops.call_binary(op, a, b, 'method')
+
+    P = (1, 2, 4)
+    call('first', P, P)
+    seen = {(P, P)}
+    N = 2 ** d
+    tries = 0
+    while len(seen) < desc['n'] + 1 and tries < 20 * desc['n']:
+        tries += 1
+        ka = tuple(rng.sample(range(N), rng.randint(1, 4)))
+        kb = tuple(rng.sample(range(N), rng.randint(1, 3))) if binary else ka
+        if (ka, kb) in seen:
+            continue
+        seen.add((ka, kb))
+        call(f'o{len(seen)}', ka, kb)
+    before = kapi.recorder_counts()
+    call('again', P, P)
+    after = kapi.recorder_counts()
+    diff = {k: after[k] - before[k] for k in after if after[k] != before[k]}
+    claims = [Note('nontrivial', ''), Eq('history-completed', 1, 1)]
+    if diff:
+        claims.append(Fail('events-after-long-history', f'{op}: the first pattern was generated again after {len(seen) - 1} other patterns: {diff}', fkey=f'long-history|{op}|events'))
+    return claims
 
 
 def _values(kind, V, tag, n, rng):
@@ -79,6 +126,8 @@ def _values(kind, V, tag, n, rng):
 
 
 def run_case(desc, V):
+    if desc['kind'] == 'long-history':
+        return _run_long(desc, V)
     from kingdon.multivector import MultiVector
     kapi.install_recorder()
     alg = make_alg(desc['cfg'])          # own algebra: the history of this case only
